@@ -113,7 +113,7 @@ pub assume_specification [<Regions as Default>::default] () -> (r: Regions)
              ("C03",), "layout-accepted-only-if"),
             ("""first_base_of(regions@) is Some && ty_size(first_base_of(regions@)->0.type_ref, &old(semantic).type_registry) is None
                     ==> res is Ok && res->Ok_0 is None && *final(semantic) == *old(semantic)""", ("C10", "C06"), "unresolved-first-base-defers"),
-            ("final(semantic).modules@.dom() == old(semantic).modules@.dom()", ("C12", "C10"), "keeps-modules"),
+            ("modules_frame(old(semantic).modules@, final(semantic).modules@)", ("C05", "C10", "C12", "C14", "C15"), "keeps-modules"),
             ("reg_wf(&final(semantic).type_registry)", ("C10",), "keeps-reg-wf"),
             ("keys_kept(&old(semantic).type_registry, &final(semantic).type_registry)", ("C10", "C14"), "keys-kept"),
             ("final(semantic).type_registry.pointer_size == old(semantic).type_registry.pointer_size", ("C10",), "keeps-pointer-size"),
@@ -142,7 +142,7 @@ pub assume_specification [<Regions as Default>::default] () -> (r: Regions)
         ("vr0 is Some ==> resolved.regions@.len() > 0 && resolved.regions@[0] == vr0->0", ("C06",)),
         ("it.seq() == regions@", ("C03",)),
         ("(vftable_functions is None && first_base_of(regions@) is None) ==> init_acc == (Seq::<Region>::empty(), 0nat)", ("C03",)),
-        ("semantic.modules@.dom() == old(semantic).modules@.dom()", ("C10",)),
+        ("modules_frame(old(semantic).modules@, semantic.modules@)", ("C05", "C10", "C14", "C15")),
         ("registry_frame(&old(semantic).type_registry, &semantic.type_registry, *resolvee_path)", ("C10", "C19")),
         ("keys_kept(&old(semantic).type_registry, &semantic.type_registry)", ("C10",)),
         ("semantic.type_registry.pointer_size == old(semantic).type_registry.pointer_size", ("C10",)),
@@ -202,7 +202,7 @@ pub assume_specification [<Regions as Default>::default] () -> (r: Regions)
         ("keys_kept(&old(semantic).type_registry, &semantic.type_registry)", ("C10",)),
         ("semantic.type_registry.pointer_size == old(semantic).type_registry.pointer_size", ("C10",)),
         ("vr0 is Some ==> pre.len() > 0 && pre[0] == vr0->0", ("C06",)),
-        ("semantic.modules@.dom() == old(semantic).modules@.dom()", ("C10",)),
+        ("modules_frame(old(semantic).modules@, semantic.modules@)", ("C05", "C10", "C14", "C15")),
         ("registry_frame(&old(semantic).type_registry, &semantic.type_registry, *resolvee_path)", ("C10", "C19")),
         "all_sized(pre, reg)",
         "resolved.last_address == sum_sizes(pre, reg)",
